@@ -70,6 +70,7 @@ type c09Cred struct {
 }
 
 type c09Ctx struct {
+	cellSum map[string]int // (threshold kind | side | distance) aggregated over stores and lifetimes, for the evidence
 	run  *vfRun
 	w    *vfWorld
 	seq  int64
@@ -174,7 +175,7 @@ func c09Keys(in *c09Inst) map[string]bool {
 func (c *c09Ctx) issue(in *c09Inst, origin string, T time.Time, idTTL time.Duration) (*c09Cred, error) {
 	T = T.Truncate(time.Second)
 	before := c09Keys(in)
-	sess := &c09Sess{In: in, Origin: origin, HasRT: origin == "oidc"}
+	sess := &c09Sess{In: in, Origin: origin, HasRT: origin == "oidc" || origin == "oidc-large"}
 	var resp *vfResp
 	var req *vfReq
 	switch origin {
@@ -189,6 +190,9 @@ func (c *c09Ctx) issue(in *c09Inst, origin string, T time.Time, idTTL time.Durat
 		id := vfStdIdentity
 		id.Sub = fmt.Sprintf("u-%d", atomic.AddInt64(&c.seq, 1))
 		id.NoRefreshToken = origin == "oidc-nort"
+		if origin == "oidc-large" { // cookie store: the session is split over several cookies
+			id.Extra = map[string]interface{}{"blob": vfRandHex(2600)}
+		}
 		if idTTL > 0 {
 			in.W.IdP.Set(func(cf *vfIdPCfg) { cf.IDTokenTTL = idTTL })
 			defer in.W.IdP.Set(func(cf *vfIdPCfg) { cf.IDTokenTTL = time.Hour })
@@ -405,6 +409,9 @@ func (c *c09Ctx) probe(cr *c09Cred, channel string, mock *time.Time) c09Result {
 		return res
 	}
 	c.run.Eval(cell)
+	if parts := strings.Split(cell, "|"); len(parts) == 5 && c.cellSum != nil {
+		c.cellSum[strings.Join(parts[1:4], "|")]++
+	}
 	c.run.Count("probes_"+want, 1)
 	if outcome != want {
 		pr.Flags, pr.Request = in.P.Flags, req
@@ -485,7 +492,7 @@ func TestVerif_C09(t *testing.T) {
 	w := vfNewWorld(t)
 	defer w.Close()
 	defer clock.Reset()
-	c := &c09Ctx{run: run, w: w, name: "_oauth2_proxy"}
+	c := &c09Ctx{run: run, w: w, name: "_oauth2_proxy", cellSum: map[string]int{}}
 
 	sum := sha1.Sum([]byte("pw"))
 	ht := w.File("htpasswd", "bob:{SHA}"+base64.StdEncoding.EncodeToString(sum[:])+"\n")
@@ -522,6 +529,8 @@ func TestVerif_C09(t *testing.T) {
 	c09StoreExpiry(c, t)
 
 	run.Extra("instances", len(insts))
+	run.Extra("probes_by_threshold_side_distance", c.cellSum)
+	run.RaceCheck("")
 	if run.Counter("refresh_reissues") < 8 || run.Counter("redis_ttl_checks") < 20 || run.Counter("maxage_checks") < 100 {
 		fmt.Printf("INCONCLUSIVE property=C09 reason=too few refresh / TTL / Max-Age observations (%d, %d, %d)\n", run.Counter("refresh_reissues"), run.Counter("redis_ttl_checks"), run.Counter("maxage_checks"))
 		t.Fail()
@@ -570,6 +579,16 @@ func c09Grid(c *c09Ctx, insts []*c09Inst) {
 				for _, k := range []int{299, 301} {
 					chn++
 					c.gridCase(in, "htpasswd", time.Duration(k)*time.Second, "now", c09Channels[chn%len(c09Channels)], 0)
+				}
+			}
+			if in.Store == "cookie" {
+				for _, k := range []int{-1, 0, 1} {
+					chn++
+					c.gridCase(in, "oidc-large", -in.Expire+time.Duration(k)*time.Second, "now-expire", c09Channels[chn%len(c09Channels)], 0)
+				}
+				for _, k := range []int{299, 301} {
+					chn++
+					c.gridCase(in, "oidc-large", time.Duration(k)*time.Second, "now", c09Channels[chn%len(c09Channels)], 0)
 				}
 			}
 			// token expiry dimension: a short-lived ID token neither extends nor (before it expires) shortens the window
